@@ -3,7 +3,7 @@
 use crate::{
     Error, Result,
     compression::{compress, flags as compression_flags},
-    crypto::{encrypt_block, hash_string, hash_type, het_hash, jenkins_hash},
+    crypto::{encrypt_block, hash_string, hash_type, het_hash},
     header::{FormatVersion, MpqHeaderV4Data},
     special_files::{AttributeFlags, Attributes, FileAttributes},
     tables::{BetHeader, BlockEntry, BlockTable, HashEntry, HashTable, HetHeader, HiBlockTable},
@@ -1928,32 +1928,28 @@ impl ArchiveBuilder {
             return Err(Error::invalid_format("Bit entry out of bounds"));
         }
 
-        // Read existing bits (limit to 8 bytes for u64)
-        let mut existing = 0u64;
-        let max_bytes = bytes_needed.min(8);
+        // An entry of up to 64 bits that starts at bit 1..7 of a byte spans 9 bytes: work in 128 bits
+        // (a 64-bit accumulator silently dropped the top bits of entries wider than 57 bits)
+        let mut existing = 0u128;
+        let max_bytes = bytes_needed.min(16);
         for i in 0..max_bytes {
-            if byte_offset + i < data.len() && i * 8 < 64 {
-                existing |= (data[byte_offset + i] as u64) << (i * 8);
-            }
+            existing |= (data[byte_offset + i] as u128) << (i * 8);
         }
 
         // Clear the bits we're about to write
-        let value_mask = if bit_size >= 64 {
-            u64::MAX
+        let value_mask: u128 = if bit_size >= 64 {
+            u64::MAX as u128
         } else {
-            (1u64 << bit_size) - 1
+            (1u128 << bit_size) - 1
         };
-        let mask = value_mask << bit_shift;
-        existing &= !mask;
+        existing &= !(value_mask << bit_shift);
 
         // Write the new value
-        existing |= (value & value_mask) << bit_shift;
+        existing |= ((value as u128) & value_mask) << bit_shift;
 
-        // Write back (limit to 8 bytes for u64)
+        // Write back
         for i in 0..max_bytes {
-            if byte_offset + i < data.len() && i * 8 < 64 {
-                data[byte_offset + i] = (existing >> (i * 8)) as u8;
-            }
+            data[byte_offset + i] = (existing >> (i * 8)) as u8;
         }
 
         Ok(())
@@ -2156,15 +2152,15 @@ impl ArchiveBuilder {
                 // Write to file table
                 self.write_bit_entry(&mut file_table, i, entry_bits, table_entry_size)?;
 
-                // Generate BET hash (Jenkins one-at-a-time hash of filename)
-                // Note: BET uses Jenkins one-at-a-time, not hashlittle2 like HET
+                // BET name hash: the same lookup3 (hashlittle2) value the reader computes in
+                // BetTable::verify_file_hash, at the width stored in the table
                 let filename = if i < self.pending_files.len() {
                     &self.pending_files[i].archive_name
                 } else {
                     // This must be the attributes file
                     "(attributes)"
                 };
-                let hash = jenkins_hash(filename);
+                let (hash, _) = het_hash(filename, bet_hash_size);
                 bet_hashes.push(hash);
             }
         }
